@@ -26,7 +26,10 @@ class B:
             ('K', '({T0}, {T1})'), ("K<{L0}, {T1}>", '&{L0} {T0}'), ('K<{T0}>', '[{T1}; {N0}]'), ('K', 'Wrap<{T0}, {N0}>'),
             ('K<{T1}, {N0}>', 'Vec<{T0}>'), ('m::K<{L0}>', "fn(&{L0} {T0}) -> {T1}"), ('K', '{T0}'),
             ('K', 'Wrap<{T0}, {N0}, {N1}>'), ('K<{T0}>', 'dyn Tr<{T1}, A = {T0}> + Send'), ('K', '<{T0} as Tr>::A'),
+            ('K<{L0}, {L1}, {L2}>', '{T0}'), ("K<{L1}>", '(&{L0} {T0}, &{L2} {T1})'),
         ])
+        # inline outlives bounds between the lifetime parameters (they never decide the numbering)
+        self.lt_bounds = r.choice([{}, {'L0': 'L2', 'L1': 'L0'}, {'L1': 'L0'}, {'L2': 'L1', 'L0': 'L1'}])
         self.bounds = r.sample([
             ('{T0}', 'D<G = {T2}>'), ('{T1}', 'D2<{T0}, G = GA, H = {T3}>'), ('{T2}', 'Clone'), ('Vec<{T0}>', 'D<G = [{T1}; {N0}]>'),
             ('{T0}', "D3<{L0}, G = &{L0} {T1}>"), ('{T3}', 'D<G = {T0}>'), ('{T0}', 'Tr'), ('[{T2}; {N1}]', 'D'),
@@ -73,8 +76,8 @@ class B:
         self.spell(r)
 
     def spell(self, r, fixed=None):
-        lts = r.sample(LT, 2); tys = r.sample(TY, 4); cts = r.sample(CT, 2)
-        self.names = {'L0': lts[0], 'L1': lts[1], 'T0': tys[0], 'T1': tys[1], 'T2': tys[2], 'T3': tys[3], 'N0': cts[0], 'N1': cts[1]}
+        lts = r.sample(LT, 3); tys = r.sample(TY, 4); cts = r.sample(CT, 2)
+        self.names = {'L0': lts[0], 'L1': lts[1], 'L2': lts[2], 'T0': tys[0], 'T1': tys[1], 'T2': tys[2], 'T3': tys[3], 'N0': cts[0], 'N1': cts[1]}
         if getattr(self, 'decoy', None) is None:
             # fixed strings, kept by the twin: a decoy is not an occurrence, so it is not renamed
             self.decoy = {'D0': self.names[r.choice(['T0', 'T1'])], 'E0': self.names[r.choice(['N0', 'N1'])]}
@@ -99,7 +102,8 @@ class B:
         for s in self.used_slots():
             n = self.names[s]
             if s[0] == 'L':
-                gens.append(n)
+                o = self.lt_bounds.get(s)
+                gens.append('%s: %s' % (n, self.names[o]) if o and o in self.used_slots() else n)
             elif s[0] == 'N':
                 gens.append('const %s: usize' % n)
             else:
